@@ -536,7 +536,7 @@ theorem glue_bad_boolean_or_mode_stops_start (c : StorageCfg)
       unfold readMode at hmode; rw [h2, ← hen] at hmode; simp at hmode
     · unfold readMode at hmode; rw [h1] at hmode; simp only [Except.ok.injEq] at hmode
       rw [← hmode] at hcut
-      unfold readCutoff at hcut; rw [h2] at hcut; simp at hcut
+      unfold readCutoff at hcut; rw [h2] at hcut; simp [getConfig] at hcut
   · exact he
 
 /-- **a documented configuration starts the node**: readable booleans, a documented (or empty / absent)
@@ -561,8 +561,8 @@ theorem glue_documented_config_starts (c : StorageCfg)
     | none => exact ⟨0, rfl⟩
     | some v =>
       rcases hrs v hc with h0 | ⟨n, hn⟩
-      · exact ⟨0, by simp only [h0]; rfl⟩
-      · exact ⟨n, by simp only [(size_accepts_iff _ _).mpr hn]; rfl⟩
+      · exact ⟨0, by simp only [getConfig, h0]; rfl⟩
+      · exact ⟨n, by simp only [getConfig, (size_accepts_iff _ _).mpr hn]; rfl⟩
   obtain ⟨rs, h2⟩ := h2
   have h6 : ∃ old, readOverride c = .ok old := by
     unfold readOverride
@@ -570,7 +570,7 @@ theorem glue_documented_config_starts (c : StorageCfg)
     | none => exact ⟨none, rfl⟩
     | some v =>
       obtain ⟨n, hn⟩ := hold v hc
-      exact ⟨some n, by simp only [(duration_accepts_iff _ _).mpr hn]; rfl⟩
+      exact ⟨some n, by simp only [getConfig, (duration_accepts_iff _ _).mpr hn]; rfl⟩
   obtain ⟨old, h6⟩ := h6
   have h5 : ∃ mode, readMode c en = .ok mode ∧ mode ≠ .other ∧ (mode = .cutoff → c.expireMode = some .cutoff) := by
     unfold readMode
@@ -593,7 +593,7 @@ theorem glue_documented_config_starts (c : StorageCfg)
     unfold readCutoff
     by_cases hm : mode = .cutoff
     · obtain ⟨v, t, hv, ht⟩ := hcut (hcm hm)
-      exact ⟨some t, by simp only [hm, if_true, hv, (date_accepts_iff _ _).mpr ht]; rfl⟩
+      exact ⟨some t, by simp only [hm, if_true, hv, getConfig, (date_accepts_iff _ _).mpr ht]; rfl⟩
     · exact ⟨none, by simp only [hm, if_false]⟩
   obtain ⟨cut, h7⟩ := h7
   have := startStorageE_of_reads c ro dd en imm mu rs mode old cut h1 h2 h3 h4 h5 h6 h7 h8 h9
